@@ -150,6 +150,7 @@ ADDENDA = {
     "C10": "Server level: the REAL binary with authentication on — {no key, unknown, disabled, empty, Bearer unknown} x 9 RPCs must be UNAUTHENTICATED and change nothing; two tenants (one with two keys) using identical local ids and vectors see only their own documents through Query / BulkQuery / Search on first boot and after two restarts, with a tenant added to the key file in between (interceptor, persistent tenant map).",
     "C15": "14 structurally malformed filters are sent bare as BatchDelete{filter}: answered; refused => unchanged; accepted => only documents the engine's reference matcher selects are removed; census after restart equals the live one.",
     "C16": "Data, deleted fillers and queries come from one pool (same distribution). The heavy-delete route is also measured BEFORE compaction with 30 / 45 / 60 % of the slots tombstoned (held to the 0.80 floor only).",
+    "C17": "Batch shapes: every row-length pattern of <= 3 rows over {dim, dim-1, dim+1, 0} (and a NaN row) through parallel_insert_batch on an empty and a non-empty index, followed by well-formed searches.",
     "C18": "On the one-step frontier (rows that are safe or violate exactly one condition) every single deviation of a remaining setting (65 deviations covering all other configuration fields, incl. http_host loopback / non-loopback) x three routes; every row additionally as environment overrides on top of the four configuration templates shipped in the repository. Server level: the REAL binary launched per (environment, violated condition) x route must exit non-zero before its port opens; safe baselines must start.",
     "C19": "Concurrent clause: 342 programs (6 configurations x 3 warm-up prefixes x 19 thread shapes of 2-3 callers) on the real RateLimiter, every schedule with <= 2 (3) preemptions under ksched; after join admitted <= burst + rate x measured interval per tenant and globally, tokens left in every bucket equal capacity - admitted up to the refill the interval allows, and a refused call implies an exhausted budget.",
 }
